@@ -190,6 +190,9 @@ class C11:
         ok = (b1[0] == "bin" and b1[1] == "*" and b2[0] == "bin" and b2[1] == "/" and b2[2] == x2 and
               ((b1[2] == x1 and b1[3] == b2[3]) or (b1[3] == x1 and b1[2] == b2[3])))
         factor = b2[3] if b2[0] == "bin" else None
+        if factor is not None and factor[0] == "call" and factor[1] in (("ext", "numpy.array"), ("ext", "numpy.asarray")) and len(factor[2]) == 1 \
+                and not factor[3] and factor[2][0][0] in ("list", "tuple"):
+            factor = ("list", factor[2][0][1])  # the two factors converted to an array once instead of by every multiplication
         order = tr[0].idx < bu[0].idx < tr[1].idx < cl[0].idx
         chain = tr[0].term[2][0] == g and bu[0].term[2][0] == tr[0].term and tr[1].term[2][0] == bu[0].term and cl[0].term[2][0] == tr[1].term
         if ok and order and chain:
